@@ -141,6 +141,15 @@ func (nd *Node) CoqCase() string {
 			// hash (law L1 fails for the accumulator); the Tree bucket is not recorded from here on
 			break
 		}
+		if nd.Base != nil && nd.gateOn(st) {
+			// a store opened at a checkpoint starts with an empty Tree bucket under an accumulator
+			// that already has leaves: Run_C02's tree model (which starts from the empty accumulator
+			// at genesis, as the theorems do) does not describe it. The only step of such a store
+			// that touches the bucket is a revert of the checkpoint block at require height + 1;
+			// the Tree bucket is not rendered from there on (the monitors of Judge still compare
+			// it with core's update and with the twin).
+			break
+		}
 		ts = append(ts, n.CoqTreeStep(st))
 	}
 	return fmt.Sprintf("mk_case %d\n [%s]\n %s\n [%s]\n [%s]", nd.T.Env.Net.HardforkV2.RequireHeight, strings.Join(bl, ";\n  "), probe, strings.Join(steps, ";\n  "), strings.Join(ts, ";\n  "))
@@ -160,4 +169,15 @@ func (n *Names) CoqTreeStep(st *StepRec) string {
 		ch = append(ch, fmt.Sprintf("((%d%%nat, %d), %d)", t.Row, t.Col, n.Pay(t.Hash[:])))
 	}
 	return fmt.Sprintf("([%s], %d, [%s])", strings.Join(ups, "; "), st.Diffs.NumLeaves, strings.Join(ch, "; "))
+}
+
+// gateOn says whether the store touches its element and Tree buckets in the step
+// (DBStore: apply iff the block's height <= require height, revert iff its parent's is).
+func (nd *Node) gateOn(st *StepRec) bool {
+	h := nd.T.Nodes[st.Node].Height
+	r := nd.T.Env.Net.HardforkV2.RequireHeight
+	if st.Apply {
+		return h <= r
+	}
+	return h >= 1 && h-1 <= r
 }
